@@ -107,6 +107,7 @@ func (htlcMod) Deps() []string { return nil }
 //	timestamp kind 0: zero, 1: current block time
 //
 // claim:  A = [contract index (creation order), claimant]
+// setparams: A = [variant], MsgUpdateParams by the authority (see Apply)
 func (htlcMod) Gen(r *lib.Rand, tier string) []Step {
 	var out []Step
 	n := 3 + r.Intn(8)
@@ -116,6 +117,10 @@ func (htlcMod) Gen(r *lib.Rand, tier string) []Step {
 	created := 0
 	out = append(out, Step{Op: "block"})
 	for i := 0; i < n; i++ {
+		if r.Chance(1, 25) {
+			out = append(out, Step{M: "htlc", Op: "setparams", A: []int64{int64(r.Intn(4))}})
+			continue
+		}
 		switch r.Weighted(6, 3, 2, 1) {
 		case 0:
 			kind := int64(r.Weighted(5, 3, 2))
@@ -213,6 +218,26 @@ func (m htlcMod) Apply(x *X, st Step) string {
 			secret = htlcSecret(9999) // wrong secret
 		}
 		o := a.Deliver(&htlctypes.MsgClaimHTLC{Sender: a.Actors[st.A[1]%3].String(), Id: strings.ToUpper(hex.EncodeToString(s.ids[k])), Secret: hex.EncodeToString(secret)})
+		return o.Kind
+	case "setparams":
+		// MsgUpdateParams by the authority (the gov module account); A = [variant]:
+		// 0 htltbnb is deactivated, 1 htltinc is dropped from the parameters, 2 the limit of htltbnb is cut to 1,
+		// 3 limits raised (0-2 can leave stored supplies / open transfers uncovered: known finding, clause 7)
+		ps := htlcGenesis(nil).Params.AssetParams
+		switch st.A[0] % 4 {
+		case 0:
+			ps[0].Active = false
+		case 1:
+			ps = ps[:1]
+		case 2:
+			ps[0].SupplyLimit.Limit = sdkmath.NewInt(1)
+			ps[0].SupplyLimit.TimeBasedLimit = sdkmath.NewInt(1)
+		case 3: // harmless: both limits doubled, other fee
+			ps[0].SupplyLimit.Limit = ps[0].SupplyLimit.Limit.MulRaw(2)
+			ps[1].SupplyLimit.Limit = ps[1].SupplyLimit.Limit.MulRaw(2)
+			ps[1].FixedFee = sdkmath.NewInt(7)
+		}
+		o := a.Deliver(&htlctypes.MsgUpdateParams{Authority: lib.ModuleAddr("gov").String(), Params: htlctypes.Params{AssetParams: ps}})
 		return o.Kind
 	}
 	return "rej"
